@@ -20,7 +20,7 @@ returns
                    merged vector IS the multiset of counted repetitions)
   sumv   SUMTYPE   (7*g+3) % 11
   ratio  RATIOTYPE (g % 5, 1 + g % 3)
-  misc   MISCTYPE  g
+  misc   MISCTYPE  val_misc(g) (g, or 0 when g % 4 == 3)
   choice CHOICETYPE g % 4 of 4
 """
 import itertools
@@ -60,6 +60,12 @@ class TrapInt(int):
 
 def val_sumv(g):
     return (7 * g + 3) % 11
+
+
+def val_misc(g):
+    """MISC observation of repetition g: the id, but 0 for every fourth one
+    (a falsy value is an observation like any other)"""
+    return 0 if g % 4 == 3 else g
 
 
 def val_ratio(g):
@@ -198,7 +204,10 @@ def make_runner(env, cfg=None):
                 if isinstance(value, list):
                     value = tuple(value)
                 if isinstance(value, tuple):
-                    if current_params[name] != value:
+                    got_v = current_params[name]
+                    if isinstance(got_v, (list, np.ndarray)):
+                        got_v = tuple(np.asarray(got_v).tolist())
+                    if got_v != value:
                         env.param_errors.append(
                             "fixed %s=%r received as %r" % (
                                 name, value, current_params[name]))
@@ -244,7 +253,7 @@ def make_runner(env, cfg=None):
                 r["sumv"][-1]._value = trap
             rv, rt = val_ratio(g)
             r.add_new_result("ratio", Result.RATIOTYPE, rv, rt)
-            r.add_new_result("misc", Result.MISCTYPE, g)
+            r.add_new_result("misc", Result.MISCTYPE, val_misc(g))
             r.add_new_result("choice", Result.CHOICETYPE, g % 4, 4)
             return r
 
